@@ -785,6 +785,18 @@ example : (match Go.resolve exRTEnv 1 0 "" with
     | _ => []) = [some true, some false, some false] := by
   decide +kernel
 
+/-- why `treeEq_resolves_partial` is DIRECTIONAL (Resolve of the original succeeds ⇒ Resolve of the tree read back
+    succeeds, not conversely): an EMPTY non-nil `Vocabulary` map beside a `$schema` other than 2020-12 is refused by
+    checkLocal, but `omitempty` does not write it, so the tree read back — a well-formed tree — resolves -/
+example : TreeWF #[{ vocabulary := some [], type := "string" }] 0 ∧
+    (Go.resolve { exRTEnv with st := #[{ vocabulary := some [], type := "string" }] } 1 0 "").verdict = some false ∧
+    (match Go.marshal #[{ vocabulary := some [], type := "string" }] 0 with
+      | .ok j => match Go.unmarshal j #[] with
+        | .ok (id', st') => (Go.resolve { exRTEnv with st := st' } 1 id' "").verdict
+        | _ => none
+      | _ => none) = some true := by
+  refine ⟨by decide, by decide +kernel, by decide +kernel⟩
+
 /-! why the results are compared up to the ORDER of the evaluated-property list (`Inv.OutSim`) and not by equality: the
     Spec lists evaluated property names in the order the keywords produce them, and `dependentSchemas` — a Go map, written
     in ascending key order — comes back sorted.  Below b ↦ {properties: {x}}, a ↦ {properties: {y}}: the original lists
